@@ -435,8 +435,9 @@ def rule_mode_pair(facts):
             if len(gen) == 1:
                 gcs = _nontrivial_calls(gen[0])
                 if len(gcs) == 1 and gcs[0][2] is not None and gcs[0][2].get("trait") == "private::Mode" and gcs[0][2]["name"].startswith("invoke"):
-                    dp = mirq.direct_place(gen[0], gcs[0][1]["args"][0]["op"])
-                    gen_dispatch = "self" if (dp is not None and dp["l"] == 1 and not dp["p"]) else "inner"
+                    # dispatch on self <=> the parser/operator type argument of Mode::invoke* is the impl's own Self type
+                    targs = [norm_ty(a) for a in gcs[0][2].get("args", [])]
+                    gen_dispatch = "self" if norm_ty(b.get("impl_self")) in targs else "inner"
             if ok and gen_dispatch == "self":
                 # `Self::go::<Mode>` would dispatch on self again through Mode::invoke*: unbounded mutual recursion
                 ok = False
